@@ -1,5 +1,6 @@
 SPECIFICATION Spec
 CONSTANT Pieces = 3
 INVARIANT NeverPartial
+INVARIANT FailedKeepsOld
 PROPERTY OnlyByRename
 CHECK_DEADLOCK FALSE
